@@ -11,7 +11,7 @@
    keeps the order: Stog/StogHist.v call_spec), no geometry may have changed and no object outside
    the list may have been touched. *)
 From FrameModel Require Import Num.QcTac Geometry.Rect Cases.Cmp Stog.CreateStog Stog.StogFacts
-  Stog.StogPost Stog.StogHist.
+  Stog.StogPost Stog.StogHist Stog.StogModule.
 From Coq Require Import Permutation.
 Open Scope list_scope.
 Open Scope Qc_scope.
@@ -91,4 +91,64 @@ Proof.
   - destruct (stog_decision eps aeps rs) as [d|]; cbn in H; [|discriminate].
     apply eqb_prop in H. congruence.
   - match goal with K : stog_post_ok _ _ _ _ _ = true |- _ => apply stog_post_ok_sound in K; exact K end.
+Qed.
+
+(* ---------------------------------------------------------------------------------------
+   Module histories (Stog/StogModule.v).  The harness drives a real Module (built directly or
+   loaded by Netlist) and records after every operation the value of every object, the list
+   of objects the module holds (by identity) and, after m.create_stog(), m.has_stog.
+   Every operation other than a recognition must reproduce the model's pool and list exactly;
+   a recognition is judged like a call of an object history on the module's CURRENT list
+   (answer of the model on the current values, verified post-condition checker, permutation,
+   geometry unchanged, nothing outside the list touched), the list the module holds afterwards
+   must be the observed order and has_stog must equal the answer.
+   --------------------------------------------------------------------------------------- *)
+Definition post_of (o : hobs) : list Rect :=
+  match o with OCall _ _ p => p | OProbe _ _ p => p | OState p => p end.
+
+Definition mcreate_check (eps aeps : Qc) (pool : list Rect) (ml : list nat) (b has : bool)
+           (idxs' : list nat) (post : list Rect) : bool :=
+  call_check eps aeps pool ml b idxs' post && Bool.eqb has b.
+
+(* a step: the operation, what was observed, the module's list afterwards, has_stog (read after MCreate only) *)
+Fixpoint mhist_check (eps aeps : Qc) (pool : list Rect) (ml : list nat)
+         (steps : list (mop * hobs * list nat * bool)) : bool :=
+  match steps with
+  | [] => true
+  | (op, o, ml', has) :: rest =>
+      match op with
+      | MObj h => hist_check eps aeps pool [(h, o)] && list_eqb Nat.eqb ml ml'
+      | MCreate | MPlain =>
+          match o with
+          | OCall (Some b) idxs' post =>
+              mcreate_check eps aeps pool ml b (match op with MCreate => has | _ => b end) idxs' post &&
+              list_eqb Nat.eqb idxs' ml'
+          | OCall None _ post =>
+              match ml with [] => true | _ => false end && list_eqb rect_eqb pool post &&
+              list_eqb Nat.eqb ml ml' && negb has
+          | _ => false
+          end
+      | _ =>
+          match o with
+          | OState post =>
+              let '(p, l) := mstep pool ml op in list_eqb rect_eqb p post && list_eqb Nat.eqb l ml'
+          | _ => false
+          end
+      end
+      && mhist_check eps aeps (post_of o) ml' rest
+  end.
+
+Theorem mcreate_check_sound eps aeps pool ml b has idxs' post :
+  mcreate_check eps aeps pool ml b has idxs' post = true ->
+  has = b /\
+  exists rs out,
+    gather pool ml = Some rs /\ gather post idxs' = Some out /\
+    stog_decision eps aeps rs = Some b /\
+    Permutation (map geom rs) (map geom out) /\
+    (b = true -> exists t rest, out = t :: rest /\ rloc t = TRUNK /\
+       Forall (fun r => rloc r <> NOPOLY /\ rloc r <> TRUNK /\ abuts eps aeps (rloc r) t r) rest) /\
+    (b = false -> Forall (fun r => rloc r = NOPOLY) out).
+Proof.
+  unfold mcreate_check. intro H. apply andb_true_iff in H. destruct H as [H1 H2].
+  split; [apply eqb_prop; exact H2|]. apply call_check_sound. exact H1.
 Qed.
